@@ -80,3 +80,28 @@ package fd
 //@     pure
 //@   callee Error() (s)
 //@     pure
+
+// extractConditions (C14: "exactly the documented meaning of its selector"): every
+// entry of match_fields becomes a condition or the configuration is rejected - an entry
+// that is neither a string nor a list of strings must not vanish silently (the
+// action would be selected by fewer tests than configured).
+
+//@ func extractConditions
+//@   ghost nent int = 0
+//@   ensures result1 == nil ==> len(result0) == nent
+//@   loop 1 invariant len(conditions) == nent
+//@   loop 2 invariant len(conditions) == nent - 1
+//@   callee Get(k) (j)
+//@     pure
+//@     set nent := nent + 1
+//@   callee Interface() (v)
+//@     pure
+//@   callee MustMap() (m)
+//@     pure
+//@   callee ParseFieldSelector(s) (r)
+//@     pure
+//@   callee CompileRegex(s) (r, err)
+//@     pure
+//@   callee Errorf(f, a) (e)
+//@     pure
+//@     ensures e != nil
